@@ -100,7 +100,8 @@ class QPlugin:
         return self.workq.getstats()
 
     def shutdown(self):
-        for j in list(self.running_jobs.values()):
+        # most urgent first: a blocked worker is handed the first job that comes back
+        for j in sorted(self.running_jobs.values(), key=lambda j: (j.priority, j.serial)):
             if j.done:
                 # finished elsewhere (timeout, kill, another worker): nothing to re-queue
                 continue
